@@ -3,7 +3,7 @@ ALL = ["C%02d" % i for i in range(1, 37)]
 
 BASELINE_OFF = ("cd /repo && GOFLAGS=-mod=mod GOPROXY=off GOSUMDB=off GOTOOLCHAIN=local "
                 "go test -json -vet=off -count=1 -timeout 25m ./...")
-HOOK_COMMITS = ["d9bd3981", "91affb0d", "895625aa", "a0f266b2", "acb6a1da"]
+HOOK_COMMITS = ["d9bd3981", "91affb0d", "895625aa", "a0f266b2", "acb6a1da", "2c5176d9"]
 
 NOTES = ("Every check: TLC design check of the TLA+ module, then TLC-generated behaviours replayed against /repo's "
          "working tree (harness rebuilt on every run with -tags verif) and/or recorded traces validated by TLC. "
@@ -21,6 +21,23 @@ _MC = ("TLC explores the bounded %s specification exhaustively (design check of 
        "real bio-rd objects with the complete projected state compared after each step")
 
 CHECKS = {
+    "C24": {
+        "text": _MC % "Collision" + " (invariants AtMostOneEstablished, AtMostOneBeyondOpenSent, RoutesOnlyFromEstablished; action "
+                "properties LoserIsTold: the closed connection's last message is a Cease NOTIFICATION, EstablishedSurvives). One peer "
+                "opens up to 3-5 connections, two at a time; actions Connect, RecvOpen, RecvOpenBoth (both OPENs in the speaker's hands "
+                "before either FSM changed state, forced with a scheduler gate hook after the collision check), RecvKeepalive, "
+                "RecvUpdate, PeerCloses; x 4 identifier orders (RFC 4271 6.8 and the equal-identifier rule of RFC 6286). All paths to "
+                "depth 7-8 plus simulation are replayed on a real bgpServer; per connection FSM state, connection closed, messages "
+                "written, number of Established FSMs and the Loc-RIB are compared after every event.",
+        "note": "Both connections are incoming ones (a passive peer): outgoing connections use tcp.Dial to port 179 and cannot be driven "
+                "offline; an FSM that is handed a connection runs the same code from Active state whether it was dialled or accepted, "
+                "and collisionHandling does not distinguish them. The tie-break is bio-rd's reading of RFC 4271 6.8 (the connection the "
+                "OPEN just arrived on survives iff the local identifier is lower). Schedules: message-level interleavings plus the one "
+                "forced intra-step overlap (check of the first OPEN done, state not yet changed); other goroutine overlaps inside the "
+                "FSM are not enumerated. Three defects repaired.",
+        "technique": "TLA+ spec Collision + TLC exhaustive check; behaviour replay (all paths + simulation) against a real bgpServer with "
+                     "several in-memory connections and a scheduler gate hook",
+    },
     "C27": {
         "text": "BMPWire is the grammar of what a monitored router can send (7 message kinds with byte-exact layouts) and 23 families of "
                 "structured mutations: common-header length 0,1,5,6,true+-1,4096,4097,65535,2^16,2^20,2^20+1,2^24,2^31-1,2^31,2^32-1; wrong "
